@@ -336,8 +336,8 @@ typedef unsigned long uintptr_t;
         RETURN_ESLEWRNG;                                                       \
     }
 #define CHK_DESTW_OVR(func, destsz, destbos)                                   \
-    if (unlikely(destsz != destbos)) {                                         \
-        if (unlikely(destsz > destbos)) {                                      \
+    if (unlikely(destsz != destbos || destsz / sizeof(wchar_t) != dmax)) {     \
+        if (unlikely(destsz > destbos || destsz / sizeof(wchar_t) != dmax)) {  \
             if (dmax > RSIZE_MAX_WSTR) {                                       \
                 invoke_safe_str_constraint_handler(func ": dmax exceeds max",  \
                                                    (void *)dest, ESLEMAX);     \
@@ -353,8 +353,8 @@ typedef unsigned long uintptr_t;
         RETURN_ESLEWRNG;                                                       \
     }
 #define CHK_DESTW_OVR_CLEAR(func, destsz, destbos)                             \
-    if (unlikely(destsz != destbos)) {                                         \
-        if (unlikely(destsz > destbos)) {                                      \
+    if (unlikely(destsz != destbos || destsz / sizeof(wchar_t) != dmax)) {     \
+        if (unlikely(destsz > destbos || destsz / sizeof(wchar_t) != dmax)) {  \
             if (dmax > RSIZE_MAX_WSTR) {                                       \
                 handle_werror(dest, destbos / sizeof(wchar_t),                 \
                               func ": dmax exceeds max", ESLEMAX);             \
@@ -424,7 +424,7 @@ typedef unsigned long uintptr_t;
         }                                                                      \
     }
 #define CHK_DESTW_OVR(func, destsz, destbos)                                   \
-    if (unlikely(destsz > destbos)) {                                          \
+    if (unlikely(destsz > destbos || destsz / sizeof(wchar_t) != dmax)) {      \
         if (dmax > RSIZE_MAX_WSTR) {                                           \
             invoke_safe_str_constraint_handler(func ": dmax exceeds max",      \
                                                (void *)dest, ESLEMAX);         \
@@ -436,7 +436,7 @@ typedef unsigned long uintptr_t;
         }                                                                      \
     }
 #define CHK_DESTW_OVR_CLEAR(func, destsz, destbos)                             \
-    if (unlikely(destsz > destbos)) {                                          \
+    if (unlikely(destsz > destbos || destsz / sizeof(wchar_t) != dmax)) {      \
         if (dmax > RSIZE_MAX_WSTR) {                                           \
             handle_werror(dest, destbos / sizeof(wchar_t),                     \
                           func ": dmax exceeds max", ESLEMAX);                 \
